@@ -186,7 +186,8 @@ class Columns(Widget, WidgetContainerMixin, WidgetContainerListContentsMixin):
 
             if has_fixed and not block_fixed:
                 supported.add(Sizing.FLOW)
-                supported.add(Sizing.FIXED)
+                if self._can_get_fixed_column_sizes():
+                    supported.add(Sizing.FIXED)
 
         if not supported:
             warnings.warn(
@@ -802,6 +803,28 @@ class Columns(Widget, WidgetContainerMixin, WidgetContainerListContentsMixin):
         self._cache_maxcol = maxcol
         self._cache_column_widths = widths
         return widths
+
+    def _can_get_fixed_column_sizes(self) -> bool:
+        """Check that `_get_fixed_column_sizes` knows every column's width and at least one column's height."""
+        height_known = False
+        for widget, (size_kind, size_weight, is_box) in self.contents:
+            w_sizing = widget.sizing()
+            if size_kind == WHSettings.GIVEN:
+                if is_box:
+                    continue
+                if Sizing.FLOW not in w_sizing:
+                    return False
+            elif size_kind == WHSettings.PACK:
+                if Sizing.FIXED not in w_sizing or is_box:
+                    return False
+            elif size_weight <= 0:
+                pass
+            elif is_box:
+                continue
+            elif Sizing.FLOW not in w_sizing:
+                return False
+            height_known = True
+        return height_known
 
     def _get_fixed_column_sizes(
         self,
